@@ -6,13 +6,16 @@ from vf.program import Program
 from contracts.effects import DECLARED
 
 CLI = 'cm_colors.cli.main'
-EXPL = ("C08 quantifies over every valid stylesheet as interpreted by a third-party parser/serialiser (tinycss2): a deductive proof of the file-level clause would be a proof about a model of tinycss2, "
-        "which is a different family. What is checked: (E, BOUNDED) the REAL click command is run on an enumerated corpus of stylesheets (literal colours in every spelling, custom properties in :root/html "
-        "chained / with fallbacks / undefined / shared, !important, repeated declarations, nesting to depth 3, unrelated at-rules, comments, vendor hacks) x --mode/--premium/--default-bg, and the outcome is "
-        "judged by oracles of the harness: an independent classification of every rule with a text colour (own custom-property resolver, WCAG oracle, the Python API for the fix) must equal the three "
-        "reported counts and their sum the number of such rules; every reported adjustment must be the API's colour, meet the target against the rule's background (oracle) and be what the written "
-        "_cm.css resolves to for that rule; rules needing attention must be listed by selector and left unchanged. (C) structural obligations on the real AST of the per-rule logic: the three counters "
-        "are incremented at disjoint sites, once each per rule path; the adjusted branch calls update_decl_value. Known findings are matched by (failure kind | trigger).")
+EXPL = ("C08 has two layers. (A, deductive) The per-rule accounting is decided on the REAL statement block of process_nodes_recursive that handles a rule with a text colour - extracted mechanically from "
+        "the working tree's AST on every run (vf/extract.py; dropped: the loop over the node list, the scan for the rule's last color/background-color declaration, re-serialisation, the @media/@supports "
+        "descent) - against contracts in contracts/cli.py: the Python API is used as function symbols of the CSS strings with the facts its own proved contracts give (C01 valid/flag_iff, C06, C14, C15); "
+        "postconditions are the clauses of the statement: exactly one of the three counters goes up by one on every path, including every exception path into the handler (so no call after an increment "
+        "may raise: callee preconditions are obligations); 'already readable' only when the pair's ratio reaches 7.0/4.5; 'adjusted' only on success of make_readable(mode, premium) of THIS pair, and "
+        "the one colour written (rule's own declaration, or the referenced custom property) and the colour reported are the API's colour; 'needs attention': listed with its selector, nothing written. "
+        "(E, BOUNDED) what the block does not see - tinycss2 parsing/serialisation, which declaration is found, nesting, custom-property resolution, the counts printed, the report and the written file - "
+        "is checked by running the REAL click command on an enumerated corpus of stylesheets x --mode/--premium/--default-bg and judging the outcome with the harness's own oracles (independent "
+        "classification of every rule, CSS-cascade custom properties, WCAG oracle, the Python API). A deductive proof of the file-level clause would be a proof about a model of tinycss2 (another family). "
+        "Known findings are matched by (failure kind | trigger).")
 
 
 def trigger_of(sel, raw_t, props, nrefs, bad_decl):
@@ -232,15 +235,44 @@ def structural(prog):
     return out
 
 
+BLOCK = f'{CLI}:process_nodes_recursive__coloured_rule'
+def _cn(name, old, new, expect): return {'name': name, 'mod': CLI, 'old': old, 'new': new, 'fn': BLOCK, 'expect': expect}
+CANARIES_A = [
+    _cn('readable counted twice', '                            stats["accessible"] += 1\n', '                            stats["accessible"] += 2\n', 'counted_exactly_once'),
+    _cn('premium target lowered to 4.5', 'target_ratio = 7.0 if premium else 4.5', 'target_ratio = 4.5', 'readable_means_target'),
+    _cn('very_readable not forwarded to the API', '                                mode=mode, very_readable=premium\n', '                                mode=mode\n', 'adjusted_is_api_success'),
+    _cn('reports a colour other than the one written', '"tuned_text": tuned_rgb,', '"tuned_text": text_color_str,', 'adjusted_written_and_reported'),
+    _cn('new level computed from the unresolved text (may raise after the count)', 'new_pair = ColorPair(tuned_rgb, bg_color_str)', 'new_pair = ColorPair(raw_text_color, bg_color_str)', 'call[get_wcag_level]'),
+    _cn('adjusted counted before the success test', '                            if is_accessible:\n                                stats["tuned"] += 1\n', '                            stats["tuned"] += 1\n                            if is_accessible:\n', 'counted_exactly_once'),
+    _cn('invalid pair not counted', '                    if not pair.is_valid:\n                        stats["failed"] += 1\n', '                    if not pair.is_valid:\n', 'counted_exactly_once'),
+    _cn('ratio kept in a second local (harmless)', 'contrast = calculate_contrast_ratio(pair.text.rgb, pair.bg.rgb)\n\n                        if contrast >= target_ratio:', 'ratio_now = calculate_contrast_ratio(pair.text.rgb, pair.bg.rgb)\n                        contrast = ratio_now\n\n                        if ratio_now >= target_ratio:', None),
+]
+
+
 def run(args):
     import multiprocessing as mp
     ck = Check('C08', args.tier, args.seed, 'other')
     ck.explanation = EXPL
     prog = Program()
-    for name, ok, detail in structural(prog):
-        ck.add_obligation('C', name, 'discharged' if ok else ('unknown' if ok is None else 'failed'), 'ast-structure', 0.0, detail)
-        if ok is False: ck.violation(name, 'C', {'found': detail})
-    ck.functions += [f'{CLI}:process_nodes_recursive', f'{CLI}:main']
+    # ---- engine A: the per-rule block under contract (+ canaries: in-memory mutants of the real source)
+    from vf.engine_a import verify_many
+    cj = []
+    for cn in CANARIES_A:
+        ov = mutate(prog, CLI, cn['old'], cn['new']); cj.append(None if ov is None else (BLOCK, ov))
+    reps = verify_many([(BLOCK, None)] + [j for j in cj if j], variant='c08')
+    ck.absorb_A(reps[:1])
+    it = iter(reps[1:]); ck.absorb_canaries(CANARIES_A, [None if j is None else next(it) for j in cj])
+    for s_ in ck.selftest:
+        if '(harmless)' in s_['name']:
+            s_['ok'] = not s_['ok'] if ('still verifies' in s_['detail'] or 'killed' in s_['detail']) else s_['ok']; s_['detail'] = 'harmless edit: ' + s_['detail']
+    ck.trust(*TRUSTED)
+    ex = getattr(prog, 'extracted', {}).get(BLOCK)
+    if ex: ck.notes.append(f"extracted block: lines {ex['lines'][0]}-{ex['lines'][1]} of cli/main.py, parameters {ex['params']}, returns {ex['returns']}; dropped by the extraction: {ex['drops']}")
+    from contracts.registry import build
+    for q_, c_ in build('c08').contracts.items():
+        if c_.assumed and (q_.startswith(CLI) or 'ColorPair' in q_): ck.assume(f"assumed contract {q_.split(':')[1]}: {c_.assumed}")
+    ck.assume("precondition of the block: every value of `variables` is a dict with the keys 'decl' and 'value' (the dict literal in main(), the only place entries are created)")
+    ck.functions += [f'{CLI}:main']
     nsheets = 140 if args.tier == 'quick' else 4000
     sheets = H.gen_sheets(20261003, nsheets // 2) + H.gen_sheets(args.seed + 8, nsheets - nsheets // 2)
     sheets += threshold_band_sheets(args.seed, 12 if args.tier == 'quick' else 200)
@@ -263,6 +295,9 @@ def run(args):
     ck.add_obligation('E', f'cm-colors on {len(res)} generated stylesheets: counts, report, written file, API agreement (bounded)', 'discharged' if ok_all else 'failed', 'enumeration(bounded)')
     for (kind, trig), items in sorted(groups.items()):
         r, msg, d = items[0]
+        for v in ck.violations:      # a failed deductive obligation gets the first failing stylesheet of this run as its concrete input
+            if v['engine'] == 'A' and v.get('witness') is None and not ck._match_known({'obligation': f'cm-colors/{kind}', 'extra': {'witness_key': f'{kind}|{trig}'}}, ck._known()):
+                v['witness'] = {'call': 'cm-colors <file> ' + ' '.join(r['opts']), 'stylesheet': r['css'], 'options': r['opts'], 'observed': msg, 'rule': d}
         ck.violation(f'cm-colors/{kind}', 'E', {'cases': len(items), 'first_message': msg, 'trigger': trig},
                      {'call': 'cm-colors <file> ' + ' '.join(r['opts']), 'stylesheet': r['css'], 'options': r['opts'], 'observed': msg, 'rule': d}, {'witness_key': f'{kind}|{trig}'})
     ck.assume('BOUNDED: only the generated stylesheets are judged', 'tinycss2 tokenizer/parser is the trusted reader of input and output sheets',
